@@ -62,6 +62,9 @@ func c18Prog(r *Rng, idx int) *Prog {
 			case 0:
 			case 1:
 				o.Desc = fmt.Sprintf("DESC-%s-END", o.Name)
+				if r.Chance(1, 3) {
+					o.Desc = fmt.Sprintf("DESC-%s 50%% of 100%%s-END", o.Name)
+				}
 			case 2:
 				o.Desc = fmt.Sprintf("DESC-%s-line1\nline2 of %s\nline3-END", o.Name, o.Name)
 			case 3:
@@ -91,6 +94,9 @@ func c18Prog(r *Rng, idx int) *Prog {
 		c.Desc = fmt.Sprintf("CDESC-%s-END", c.Name)
 		if r.Chance(1, 4) {
 			c.Desc = fmt.Sprintf("CDESC-%s-l1\nl2-END", c.Name)
+		}
+		if r.Chance(1, 5) {
+			c.Desc = fmt.Sprintf("CDESC-%s by 50%% of 100%%d-END", c.Name)
 		}
 		if r.Chance(1, 8) {
 			c.Unset = true
@@ -135,6 +141,9 @@ func c18Prog(r *Rng, idx int) *Prog {
 	}
 	if r.Bool() {
 		p.SelfName, p.SelfDesc = "prog"+strconv.Itoa(idx%7), "SELFDESC-END"
+	}
+	if idx%7 == 3 {
+		p.Help, p.HelpAliases = "", nil // a program without the help command (own --help handling, Help() only)
 	}
 	return p
 }
@@ -389,6 +398,14 @@ func init() {
 					return viol("help structure at level \""+path+"\"", d, doc)
 				}
 				res.Events += len(n.Visible) + len(n.Children)
+				if p.Help == "" {
+					for _, o := range n.Visible {
+						res.Cells = append(res.Cells, fmt.Sprintf("%s|aliases=%d|required=%v|env=%v", o.Kind, len(o.Aliases), o.Required, o.Env != ""))
+						sig += fmt.Sprintf("%s%d%v%v,", o.Kind, len(o.Aliases), o.Required, o.Env != "")
+					}
+					sig += "/nohelp/"
+					continue
+				}
 				// route 2: help command
 				b := Build(p)
 				oc := b.RunParse(append(append([]string{}, toks...), "help"))
